@@ -1217,6 +1217,53 @@ def r05_17(chk, tier, units=('csv',)):
                                  'can end up with different lengths and the access runs past the shorter one' % (A.strip_targs(cls).split('::')[-1], fn['n'], a_, [k for k, _ in ops[a_]] or 'nothing', b_, [k for k, _ in ops[b_]] or 'nothing', b_, a_), None, fn['q'])
     chk.require(n >= 1, 'R05.17: no container indexed under the size of another one found')
 
+# the side stack of buffer-owning iterators of the CBOR parser and the frame mode that owns an entry of it under a multi-dimensional array
+OWNED_SIDE_STACKS = [('cbor', 'jsoncons::cbor::basic_cbor_parser', 'typed_array_stack_', 'multi_dim', 'is_multi_dim')]
+
+def r05_18(chk, tier):
+    """Two stacks kept in step across functions: who releases an entry of the side stack."""
+    chk.rule('R05.18', 'owned side stack: an entry of the CBOR parser\'s typed_array_stack_ that sits under a multi_dim frame is released by the '
+                       'handler of that frame; every other `typed_array_stack_.pop_back()` of the class is therefore inside the `multi_dim` case of '
+                       'the mode switch or under a `!is_multi_dim()` test - an unconditional release elsewhere (the cursor short cut '
+                       'to_end_array, say) releases the iterator a second time when the array is the storage of a multi-dimensional array '
+                       '(internal assertion, or a foreign iterator popped)', floor=2)
+    n = 0
+    for unit, cls, stack, owner_mode, owner_pred in OWNED_SIDE_STACKS:
+        facts = F.load([unit], tier)
+        if unit not in chk.units: chk.units.append(unit)
+        enums = {e['q']: e for e in facts.enums}
+        pm_enum = [e for q, e in enums.items() if q.endswith('::parse_mode') and e['file'].startswith('include/jsoncons_ext/' + unit)]
+        owner_val = dict((a, b) for a, b in pm_enum[0]['values']).get(owner_mode) if pm_enum else None
+        fns = [f for f in facts.functions if f.get('body') is not None and not f.get('dep') and A.strip_targs(f.get('cls') or '') == cls]
+        chk.require(owner_val is not None and any(f['n'] == owner_pred for f in fns), 'R05.18: parse_mode::%s or %s() not found in %s' % (owner_mode, owner_pred, cls))
+        if owner_val is None: continue
+        owner_sites = 0
+        for fn in U.one_per_inst(fns):
+            pops = [x for x in A.walk_no_lambda(fn['body']) if x.get('k') == 'CXXMemberCallExpr' and A.callee_name(x) in ('pop_back', 'erase', 'resize')
+                    and A.text(A.strip(x.get('obj'), casts=True) or {}).replace('this->', '') == stack]
+            if not pops: continue
+            chk.analysed(fn)
+            g = C.CFG(fn['body'])
+            for i, x in enumerate(pops):
+                n += 1
+                site = U.site(fn, '%s.%s#%d' % (stack, A.callee_name(x), i + 1))
+                nd = g.node_of(x)
+                how = None
+                for a, lab, e in (g.guards(nd) if nd is not None else []):
+                    if isinstance(lab, tuple) and lab[0] == 'case' and lab[1] <= owner_val <= lab[2] and lab[1] == lab[2] and 'mode' in A.text(a):
+                        how = 'in the %s frame handler' % owner_mode; owner_sites += 1; break
+                    if isinstance(lab, bool):
+                        c = A.strip(a, casts=True)
+                        if c is not None and A.is_call(c) and A.callee_name(c) == owner_pred and lab is False:
+                            how = 'under !%s()' % owner_pred; break
+                if how: chk.ok('R05.18', site, {'line': x.get('l'), 'release': how})
+                else:
+                    chk.fail('R05.18', site, fn['file'], x.get('l'), '%s::%s releases an entry of %s without knowing that no %s frame owns it (not in the %s case of the mode switch, no dominating '
+                             '`!%s()` test): when the typed array is the storage of a multi-dimensional array the %s handler releases the entry again - internal assertion on an '
+                             'empty stack, or the iterator of an enclosing array popped' % (cls.split('::')[-1], fn['n'], stack, owner_mode, owner_mode, owner_pred, owner_mode), None, fn['q'])
+        chk.require(owner_sites >= 1, 'R05.18: no release of %s in the %s frame handler found' % (stack, owner_mode))
+    chk.require(n >= 2, 'R05.18: only %d releases of the side stack found' % n)
+
 def run(chk, tier, only_rule=None):
     chk.explanation = EXPLANATION
     chk.not_decided = NOT_DECIDED
@@ -1240,6 +1287,7 @@ def run(chk, tier, only_rule=None):
     r05_15(chk, tier)
     r05_16(chk, tier)
     r05_17(chk, tier)
+    r05_18(chk, tier)
     from . import c03
     c03.r03_14(chk, tier)     # a cursor given a new source drops the pointers into the old one in every reset overload
     from . import c15
